@@ -176,4 +176,27 @@ theorem C14_fresh_probe_applied (w : Worker) (p : Probe) (now : Nat)
   obtain ⟨a, b, _⟩ := h2 hfresh
   exact ⟨a v, fun h1 h2 => (b v).mpr ⟨h1, fun h => absurd h h2⟩⟩
 
+/-- **Every listed container is read.** Whatever the order of the lines of `crunch-run --list`
+(in particular wherever "broken" stands), a container is reported running iff it has a line of
+its own; "broken" and stale run locks are reported iff such a line exists; a stale line never
+counts as running. -/
+theorem C14_probe_reads_every_line (ls : List ProbeLine) (u : Uuid) :
+    (u ∈ (parseProbe ls).1 ↔ ProbeLine.uuid u ∈ ls) ∧
+    ((parseProbe ls).2.1 = true ↔ ProbeLine.broken ∈ ls) ∧
+    ((parseProbe ls).2.2 = true ↔ ∃ v, ProbeLine.stale v ∈ ls) := by
+  induction ls with
+  | nil => simp [parseProbe]
+  | cons l rest ih =>
+    obtain ⟨i1, i2, i3⟩ := ih
+    cases l <;> simp [parseProbe, i1, i2, i3]
+
+example : parseProbe [.broken, .uuid 3, .stale 4, .uuid 5, .empty] = ([3, 5], true, true) := by decide
+
+/-- **A failed instance listing drops nothing.** When `Instances()` returns an error — a
+rate-limit error included — `getInstancesAndSync` leaves every worker (and so everything
+`Running()` reports) in place; workers are only ever dropped by a `sync` over a list the cloud
+actually returned (assumption A2 is about that list). -/
+theorem C14_failed_listing_drops_nothing (p : Pool) (retry : Nat → Bool) (th now : Nat) :
+    p.getInstancesAndSync .failed retry th now = p := rfl
+
 end ArvVerif.C14
